@@ -1,6 +1,9 @@
 //! wharness: drives the real walrus (path dependency on /repo) for the correspondence checks
 //! and the property oracles. One sub-command per suite; see `out.rs` for the output protocol.
 mod arena;
+mod builder;
+mod irtext;
+mod visit;
 mod decode;
 mod gen;
 mod out;
@@ -39,6 +42,9 @@ fn main() {
         "arena" => arena::main(seed, &tier, only.as_deref()),
         "sections" => sections::main(seed, &tier, only.as_deref()),
         "par" => par::main(seed, &tier, &role),
+        "visit" => visit::main(seed, &tier, only.as_deref()),
+        "visit-deep" => visit::deep(args[2].parse().unwrap()),
+        "builder" => builder::main(seed, &tier, only.as_deref()),
         "gentest" => {
             // generator self-test: how often are generated modules valid, what do they contain
             let mut rejected = 0;
